@@ -12,6 +12,8 @@ pub enum SizeRegime {
     Tiny,
     Typical,
     Boundary,
+    /// uniform over the whole admissible range, and powers of two +-1
+    Wide,
 }
 
 #[derive(Clone, Copy, Debug, PartialEq, Eq, Serialize, Deserialize)]
@@ -67,6 +69,7 @@ impl Swarm {
                 SizeRegime::Typical,
                 SizeRegime::Typical,
                 SizeRegime::Boundary,
+                SizeRegime::Wide,
             ]),
             strings: *rng.pick(&[StrRegime::Ascii, StrRegime::Multi, StrRegime::Awkward]),
             values: *rng.pick(&[ValRegime::Uniform, ValRegime::Extremes]),
@@ -99,6 +102,14 @@ pub fn var_len(rng: &mut Rng, s: SizeRegime, max: usize) -> usize {
             1usize, 2, 3, 15, 16, 17, 248, 249, 250, 251, 255, 256, 257, 511, 512, 1000, 1012,
             1013, 1014, 1015, 1016, 1017,
         ]),
+        SizeRegime::Wide => {
+            if rng.chance(1, 3) {
+                let k = rng.urange(2, 9);
+                ((1usize << k) as i64 + *rng.pick(&[-1i64, 0, 1])) as usize
+            } else {
+                rng.urange(1, max.max(1))
+            }
+        }
     };
     n.clamp(1, max.max(1))
 }
@@ -286,6 +297,7 @@ pub fn gen_hidden(rng: &mut Rng, sw: &Swarm) -> SpecAvp {
         SizeRegime::Boundary => *rng.pick(&[0usize, 1, 16, 32, 1008, 1016, 1017]),
         SizeRegime::Tiny => *rng.pick(&[0usize, 1, 16]),
         SizeRegime::Typical => *rng.pick(&[0usize, 5, 16, 32, 48, 64, 33]),
+        SizeRegime::Wide => rng.urange(0, 1017),
     };
     SpecAvp {
         attr,
@@ -375,6 +387,14 @@ pub fn gen_data(rng: &mut Rng, sw: &Swarm) -> SpecMessage {
         SizeRegime::Tiny => rng.urange(1, 4),
         SizeRegime::Typical => rng.urange(1, 64),
         SizeRegime::Boundary => *rng.pick(&[1usize, 2, 3, 255, 256, 1500, 4000]),
+        SizeRegime::Wide => {
+            if rng.chance(1, 3) {
+                let k = rng.urange(1, 13);
+                ((1usize << k) as i64 + *rng.pick(&[-1i64, 0, 1])).max(1) as usize
+            } else {
+                rng.urange(1, 9000)
+            }
+        }
     };
     let data = rng.bytes(dl);
     let offset = if has_o {
